@@ -715,12 +715,10 @@ class Unit:
         """self == other"""
         if isinstance(other, Unit):
             if self.qty_cls is other.qty_cls:
-                if self._equiv is None:
-                    assert other._equiv is None
+                if self._equiv is None or other._equiv is None:
+                    # a unit without scale is equal to itself only
                     return self is other
-                else:
-                    assert other._equiv is not None
-                    return self._equiv == other._equiv
+                return self._equiv == other._equiv
         return False
 
     def _compare(self, other: Any, op: CmpOpT) -> bool:
